@@ -835,4 +835,148 @@ theorem run_eq_feed (cfg : Cfg) (s : St) (segs : List Str) (h : step cfg s = non
     simp only [run, List.flatten_cons]
     rw [ih _ (step_feed cfg s a), feed_append']
 
+
+/-! ### no step ever records an uncaught exception -/
+
+theorem unc_pushEv {r : List Ev} {e : Ev} (h : Ev.uncaught ∈ pushEv r e) : Ev.uncaught ∈ r ∨ e = .uncaught := by
+  unfold pushEv at h
+  split at h
+  · split at h <;> simp_all
+  · simp only [List.mem_cons] at h
+    rcases h with h | h
+    · right; exact h.symm
+    · left; exact h
+
+theorem unc_emit (s : St) (es : List Ev) (hes : Ev.uncaught ∉ es) (h : Ev.uncaught ∈ (s.emit es).out) :
+    Ev.uncaught ∈ s.out := by
+  unfold St.emit at h
+  simp only at h
+  induction es generalizing s with
+  | nil => exact h
+  | cons e es ih =>
+    simp only [List.foldl_cons] at h
+    simp only [List.mem_cons, not_or] at hes
+    have := ih { s with out := pushEv s.out e } hes.2 h
+    rcases unc_pushEv this with h1 | h1
+    · exact h1
+    · exact absurd h1.symm hes.1
+
+theorem unc_deliver (s : St) (b : Str) (h : Ev.uncaught ∈ (s.deliver b).out) : Ev.uncaught ∈ s.out := by
+  rcases unc_pushEv (show Ev.uncaught ∈ pushEv s.out (.data (s.idx - 1) b) from h) with h1 | h1
+  · exact h1
+  · cases h1
+
+theorem unc_reject400 (s : St) (r : Bool) (h : Ev.uncaught ∈ (reject400 s r).out) : Ev.uncaught ∈ s.out :=
+  unc_emit s _ (by cases r <;> simp) h
+
+theorem unc_closeSilent (s : St) (r : Bool) (h : Ev.uncaught ∈ (closeSilent s r).out) : Ev.uncaught ∈ s.out :=
+  unc_emit s _ (by cases r <;> simp) h
+
+theorem unc_finishReq (s : St) (h : Ev.uncaught ∈ (finishReq s).out) : Ev.uncaught ∈ s.out := by
+  unfold finishReq at h
+  by_cases hk : s.ka = true
+  · simp only [hk, if_true] at h; exact unc_emit s _ (by simp) h
+  · simp only [hk, if_false] at h; exact unc_emit s _ (by simp) h
+
+theorem unc_startBody (s : St) (k : Option BodyKind) (h : Ev.uncaught ∈ (startBody s k).out) : Ev.uncaught ∈ s.out := by
+  unfold startBody at h
+  split at h
+  · exact unc_reject400 s true h
+  · exact unc_finishReq s h
+  · exact unc_finishReq s h
+  · exact h
+  · exact h
+
+theorem unc_onHead (cfg : Cfg) (s : St) (blk : Str) (h : Ev.uncaught ∈ (onHead cfg s blk).out) : Ev.uncaught ∈ s.out := by
+  unfold onHead at h
+  split at h
+  · exact unc_reject400 s false h
+  · split at h
+    · exact unc_reject400 s false h
+    · split at h
+      · exact unc_reject400 s true h
+      · unfold startReq at h
+        have := unc_startBody _ _ h
+        exact unc_emit _ _ (by split <;> simp) this
+
+theorem unc_takeBody (s : St) (k : Nat) (h : Ev.uncaught ∈ (takeBody s k).out) : Ev.uncaught ∈ s.out :=
+  unc_deliver s _ h
+
+theorem unc_step {cfg : Cfg} {s s' : St} (hs : step cfg s = some s') (h : Ev.uncaught ∈ s'.out) : Ev.uncaught ∈ s.out := by
+  unfold step at hs
+  cases hp : s.phase with
+  | headers =>
+    simp only [hp, stepHeaders] at hs
+    split at hs
+    · split at hs
+      · cases hs; exact unc_closeSilent s false h
+      · cases hs; have := unc_onHead cfg _ _ h; exact this
+    · split at hs
+      · cases hs; exact unc_closeSilent s false h
+      · cases hs
+  | fixed rem =>
+    simp only [hp, stepFixed] at hs
+    split at hs
+    · cases hs
+    · split at hs
+      · cases hs; exact unc_takeBody s _ (unc_finishReq _ h)
+      · cases hs; exact unc_takeBody s _ h
+  | chunkSize total =>
+    simp only [hp, stepChunkSize] at hs
+    split at hs
+    · split at hs
+      · cases hs; exact unc_closeSilent s true h
+      · split at hs
+        · cases hs; exact unc_reject400 s true h
+        · cases hs; exact h
+        · split at hs
+          · cases hs; exact unc_reject400 s true h
+          · cases hs; exact h
+    · split at hs
+      · cases hs; exact unc_closeSilent s true h
+      · cases hs
+  | chunkData rem total =>
+    simp only [hp, stepChunkData] at hs
+    split at hs
+    · cases hs
+    · split at hs
+      · cases hs; exact unc_takeBody s _ h
+      · cases hs; exact unc_takeBody s _ h
+  | chunkCrlf total =>
+    simp only [hp, stepChunkCrlf] at hs
+    split at hs
+    · split at hs
+      · cases hs; exact h
+      · cases hs; exact unc_reject400 s true h
+    · cases hs
+  | lastCrlf =>
+    simp only [hp, stepLastCrlf] at hs
+    split at hs
+    · split at hs
+      · cases hs; have := unc_finishReq _ h; exact this
+      · cases hs; exact unc_reject400 s true h
+    · cases hs
+  | closed => simp [hp] at hs
+
+theorem unc_drain (cfg : Cfg) (s : St) : Ev.uncaught ∈ (drain cfg s).out → Ev.uncaught ∈ s.out := by
+  generalize hn : s.buf.length = n
+  induction n using Nat.strongRecOn generalizing s with
+  | _ n ih =>
+    intro h
+    cases hs : step cfg s with
+    | none => rw [drain_of_none hs] at h; exact h
+    | some s' =>
+      rw [drain_of_some hs] at h
+      exact unc_step hs (ih _ (by have := step_lt hs; omega) s' rfl h)
+
+theorem unc_app (s : St) (c : Str) (h : Ev.uncaught ∈ (s.app c).out) : Ev.uncaught ∈ s.out := by
+  by_cases hp : s.phase = .closed
+  · rw [app_of_closed c hp] at h; exact h
+  · rw [app_of_open c hp] at h; exact h
+
+theorem unc_run (cfg : Cfg) (s : St) (segs : List Str) (h : Ev.uncaught ∈ (run cfg s segs).out) : Ev.uncaught ∈ s.out := by
+  induction segs generalizing s with
+  | nil => exact h
+  | cons a rest ih => exact unc_app s a (unc_drain cfg _ (ih _ h))
+
 end TornadoModel.C01
